@@ -123,6 +123,9 @@ def eval_call(eng, e, st):
         if fn == "seeded_bits" and fn not in st.env:
             a_ = [eng.as_int(st, eng.ev1(x, st)) for x in e.args]
             return [(st, VInt(smt.seeded_bits(*a_)))]
+        if fn in ("int16", "int16_ok") and fn not in st.env:
+            a_ = eng.as_iseq(st, eng.ev1(e.args[0], st)).t
+            return [(st, VInt(smt.int16(a_)) if fn == "int16" else VBool(smt.int16_ok(a_)))]
         if fn == "rng" and fn not in st.env:
             return [(st, VInt(smt.rng(eng.as_int(st, eng.ev1(e.args[0], st)))))]
         if fn == "fill" and fn not in st.env:
@@ -410,6 +413,16 @@ def builtin_call(eng, st, name, args, kwargs, node):
         v = d(args[0])
         if isinstance(v, (VInt, VBool)):
             return [(st, VInt(eng.as_int(st, v)))]
+        if isinstance(v, VSeq) and v.kind == "str" and len(args) == 2:
+            base_ = eng.as_int(st, args[1], node)
+            if not (z3.is_int_value(base_) and base_.as_long() == 16):
+                raise Unsupported("int(str, base) with base != 16")
+            r = smt.int16(v.t)
+            if not eng.spec_mode:
+                eng.implicit_error(st, smt.int16_ok(v.t), "ValueError", node, "int-base-16")
+            eng.fr.assumed_used.add("int(s, 16): uninterpreted value int16(s), ValueError unless int16_ok(s); for two hex digits it is "
+                                    "16 * digit + digit (assumed, cross-checked in bounded/C12.py)") if eng.fr else None
+            return [(st, VInt(r))]
         if isinstance(v, VSeq) and v.kind == "str":
             # int(str): ValueError unless an optional sign/whitespace-wrapped digit string; modelled as
             # uninterpreted value with a may-raise
@@ -421,6 +434,10 @@ def builtin_call(eng, st, name, args, kwargs, node):
         raise Unsupported(f"int({v!r})")
     if name == "bool":
         return [(st, VBool(eng.truth(st, args[0])))]
+    if name == "next" and len(args) == 1 and isinstance(args[0], VRef) and isinstance(st.heap.get(args[0].ident), dict) \
+            and st.heap[args[0].ident].get("__kind__") == "obj":
+        # next(it) on an object of a class under contract: it.__next__()
+        return obj_method(eng, st, args[0], st.heap[args[0].ident], "__next__", [], {}, node)
     if name == "ord":
         v = d(args[0])
         if isinstance(v, VSeq):
@@ -997,6 +1014,10 @@ def seq_method(eng, st, s, name, args, kwargs, node):
         from .strmodel import replace
         return [(st, replace(eng, st, s, d(args[0]), d(args[1]), node))]
     if name == "join":
+        parts = d(args[0])
+        if s.kind == "str" and s.py == "" and isinstance(parts, VSeq) and parts.kind in ("clist", "str"):
+            # "".join(list of one-character strings / string): the same characters
+            return [(st, VSeq(parts.t, "str"))]
         raise Unsupported("join")
     raise Unsupported(f"method {name} on {s.kind}")
 
